@@ -13,7 +13,8 @@ D4 ci_sorted_unchecked returns sorted[rank] for exactly the ranks of ci_indices(
 D5 ci / ci_max_size pass on sort_by(collect(copied(data)), ascending comparator); data has no
    other use => the result depends on data only through its sorted arrangement.
 D6 ci_indices(n) == Stats::new(n).ci.
-U: "ranks bracket round(q*n) within one position" (numeric fact about Wilson bounds)."""
+D7 the ranks bracket round(q*n) to within one position: composition of D2 with the sign certificate
+   "ci_wilson's bounds contain k/n for z >= 0" (DESIGN 16) and monotonicity of floor / min."""
 from fractions import Fraction
 
 from .. import terms as T
@@ -253,6 +254,33 @@ def run_cfg(chk, facts, cfg):
         rc.region('admissible', paths, Domain(nf, d), exp_main, select=okp, extra_literal=order_literal)
         rc.done(sample={'fn': 'Stats::ci', 'kind': kname, 'paths': len(paths)})
         cnt['index'] += 2 if kind == 'two' else 1
+
+    # ------------------------------------------------------------------ A'. the ranks bracket round(q*n)
+    # composition: (1) the obligation above: the ranks are min(floor(w*n), n-1) of the Wilson bounds w requested for
+    # k = round(q*n); (2) sign certificate on ci_wilson's own bounds: w_lo <= k/n <= w_hi for z >= 0 (two-sided; one-sided
+    # at a level of at least 1/2); (3) floor and min are monotone and k is an integer <= n:
+    # low rank <= floor(k) = k and high rank >= min(k, n-1) >= k - 1.
+    try:
+        from .C17 import ok_interval, wilson_theorems
+        from .C02 import mk_domain, K as K2, N as N2, L as L2
+        from ..meanci import NORMAL, crit
+        from ..nf import Ctx as NF2
+        nf2 = NF2(nonneg=['n', 'k'])
+        dom2 = mk_domain(nf2)
+        for kind, kname in KINDS:
+            key = '%s:bracket:%s%s' % (PID, kname, sfx)
+            shape = [o for o in chk.obligations if o['key'] == '%s:Stats::ci:%s%s' % (PID, kname, sfx)]
+            probs = []
+            if not shape or shape[0]['status'] != 'ok':
+                probs.append('premise (1) failed: rank mapping / Wilson request of Stats::ci(%s)' % kname)
+            (k1, lo1, hi1), _np = ok_interval(facts, nf2, im, cm, wil, kind, None, dom2)
+            z = crit(NORMAL, cm.quantile(kind, L2))
+            res = wilson_theorems(chk, nf2, 'ci_wilson', sfx, facts.loc(wil['id']), kind, kname, z, lo1, hi1, emit=False)
+            probs += ['premise (2): ' + x for x in res['contains']]
+            chk.ob(key, 'composition', 'Stats::ci(%s): low rank <= round(q*n) and high rank >= round(q*n) - 1 (two-sided; one-sided at level >= 1/2): monotone rank map of Wilson bounds that contain k/n (sign certificate)' % kname,
+                   not probs, '; '.join(probs[:3]), facts.loc(sci['id']))
+    except (Unsupported, NotReal) as e:
+        chk.ob('%s:bracket%s' % (PID, sfx), 'composition', 'ranks bracket round(q*n)', None, 'undecided: %s' % e, facts.loc(sci['id']))
 
     # ------------------------------------------------------------------ B. Stats::index
     where = facts.loc(sidx['id'])
